@@ -233,8 +233,14 @@ def check_join_pair(case, out):
             out.fail("join-differs-from-" + name, klass,
                      f"A: U={a.U} P={a.P} w={a.w}; B: U={b.U} P={b.P} w={b.w}: (A|B)({wit[0]}) = {wit[2]}, {name} gives {wit[1]}")
             return
-    # value at the junction itself: right-continuous -> B's start value
+    # a junction where the two curves meet continuously needs at most multiplicity degree (C0), also for
+    # rational operands whose junction weights differ (weights of one side can be rescaled freely)
     m = b.limits[0]
+    if not jump and js.p >= 1 and oracle.mult(js.U, m) > js.p:
+        out.fail("junction-multiplicity-not-minimal", klass,
+                 f"A: U={a.U} P={a.P} w={a.w}; B: U={b.U} P={b.P} w={b.w}: curves meet continuously at {m} but the joined "
+                 f"knot vector {js.U} keeps multiplicity {oracle.mult(js.U, m)} > degree {js.p} there")
+    # value at the junction itself: right-continuous -> B's start value
     if oracle.ceval(js, m) != oracle.ceval(b, m):
         out.fail("join-junction-value", klass, f"(A|B)({m}) = {oracle.ceval(js, m)}, B({m}) = {oracle.ceval(b, m)}")
 
